@@ -66,7 +66,7 @@ STDLIB_FUNCS = {"_op.attrgetter": lambda name: (lambda o: getattr(o, name)), "_o
                 "_it.product": lambda *a, **k: list(_itertools.product(*a, **k)), "_it.accumulate": lambda *a, **k: list(_itertools.accumulate(*a, **k))}
 
 _CONTAINER_METHODS = {"union": (set, frozenset), "intersection": (set, frozenset), "difference": (set, frozenset), "issubset": (set, frozenset),
-                      "get": (dict,), "keys": (dict,), "values": (dict,), "items": (dict,), "index": (list, tuple, str), "count": (list, tuple, str),
+                      "get": (dict,), "update": (dict,), "setdefault": (dict,), "append": (list,), "extend": (list,), "add": (set,), "keys": (dict,), "values": (dict,), "items": (dict,), "index": (list, tuple, str), "count": (list, tuple, str),
                       "startswith": (str,), "endswith": (str,), "strip": (str,), "lstrip": (str,), "rstrip": (str,), "split": (str,), "lower": (str,),
                       "upper": (str,), "replace": (str,), "join": (str,), "isdigit": (str,), "removeprefix": (str,), "removesuffix": (str,)}
 
@@ -253,6 +253,12 @@ def ev(node, env: dict, funcs: dict | None = None, methods: dict | None = None):
                     obj = None
                 if type(obj) in _CONTAINER_METHODS[n.func.attr]:
                     return getattr(obj, n.func.attr)(*args, **kws)
+            if name == "hasattr" and len(args) == 2 and isinstance(args[1], str):
+                if isinstance(args[0], FinObj):
+                    return args[1] in args[0]._fin_attrs
+                if type(args[0]) in (tuple, list, int, str, range, dict, set, frozenset, type(None)):
+                    return hasattr(args[0], args[1])
+                raise NotFinite("hasattr of an unmodelled object")
             if name == "getattr" and len(args) in (2, 3) and isinstance(args[0], FinObj) and isinstance(args[1], str):
                 if args[1] in args[0]._fin_attrs:
                     return getattr(args[0], args[1])
@@ -351,6 +357,12 @@ def run_function(f, args: dict, funcs=None, env=None, final_env=None, methods=No
                 op = _BIN.get(type(st.op))
                 env[st.target.id] = op(env[st.target.id], ev(st.value, env, funcs, methods))
                 continue
+            if isinstance(st, ast.AugAssign) and isinstance(st.target, ast.Attribute) and isinstance(st.target.value, ast.Name) \
+                    and isinstance(env.get(st.target.value.id), FinObj) and st.target.attr in env[st.target.value.id]._fin_attrs:
+                op = _BIN.get(type(st.op))
+                obj = env[st.target.value.id]
+                setattr(obj, st.target.attr, op(getattr(obj, st.target.attr), ev(st.value, env, funcs, methods)))
+                continue
             if isinstance(st, ast.AugAssign) and isinstance(st.target, ast.Attribute) and dotted(st.target) in env:
                 op = _BIN.get(type(st.op))
                 env[dotted(st.target)] = op(env[dotted(st.target)], ev(st.value, env, funcs, methods))
@@ -360,6 +372,36 @@ def run_function(f, args: dict, funcs=None, env=None, final_env=None, methods=No
                 continue
             if isinstance(st, ast.If):
                 run(st.body if ev(st.test, env, funcs, methods) else st.orelse)
+                continue
+            if isinstance(st, ast.Try) and not st.finalbody and st.handlers:
+                # handlers: catch-all (bare / Exception) or a named built-in error; a `raise` executed by the evaluated code reaches
+                # catch-all handlers only (its type is not modelled); Python errors of the modelled operations reach the first
+                # handler whose class matches
+                known = {"ValueError": ValueError, "TypeError": TypeError, "IndexError": IndexError, "KeyError": KeyError,
+                         "AttributeError": AttributeError, "ZeroDivisionError": ZeroDivisionError, "LookupError": LookupError,
+                         "ArithmeticError": ArithmeticError, "Exception": Exception, "BaseException": BaseException}
+                hs = []
+                for h in st.handlers:
+                    names_ = [None] if h.type is None else [dotted(x) for x in (h.type.elts if isinstance(h.type, ast.Tuple) else [h.type])]
+                    if any(n_ is not None and n_ not in known for n_ in names_):
+                        raise NotFinite("except clause for an unmodelled exception type")
+                    hs.append((tuple(BaseException if n_ is None else known[n_] for n_ in names_), h))
+                try:
+                    run(st.body)
+                except (_Ret, _Continue, _Break, NotFinite):
+                    raise
+                except Raised:
+                    h = next((h for cl, h in hs if any(c in (Exception, BaseException) for c in cl)), None)
+                    if h is None:
+                        raise
+                    run(h.body)
+                except (TypeError, ValueError, IndexError, KeyError, AttributeError, ZeroDivisionError) as ex:
+                    h = next((h for cl, h in hs if isinstance(ex, cl)), None)
+                    if h is None:
+                        raise
+                    run(h.body)
+                else:
+                    run(st.orelse)
                 continue
             raise NotFinite(f"statement {type(st).__name__}")
 
@@ -533,7 +575,8 @@ class FinMat:
 
 
 def _vstack(parts):
-    parts = list(parts)
+    # numpy stacks 1-D sequences as rows
+    parts = [FinMat([list(p)]) if isinstance(p, (list, tuple)) else p for p in parts]
     if len({p.shape[1] for p in parts}) != 1:
         raise NotFinite(f"vstack of {[p.shape for p in parts]}")
     return FinMat([r for p in parts for r in p.rows])
